@@ -13,6 +13,9 @@ pub struct Case {
     pub special: SpecialCfg,
     pub text: String,
     pub ignore_special: bool,
+    /// the tokenized text is `text` repeated this many times (0 = once): long inputs without long cases
+    #[serde(default)]
+    pub repeat: usize,
 }
 
 pub struct C01;
@@ -37,8 +40,8 @@ impl Prop for C01 {
     fn fuzz_decode(bytes: &[u8]) -> Option<Case> {
         crate::fuzzdec::c01(bytes)
     }
-    const RULE: &'static str = "Unicode text from fragment pools (multi-byte, combining sequences, CRLF, ZWJ emoji, hazards) mixed with the case's own special-token spellings and look-alikes ('<pad', 'pad>', doubled, nested, upper-cased, adjacent to multi-byte characters) x byte tokenizer configs (graphemes, byte/code-point groups, pad_to_multiple_of, aggregation) or char tokenizer configs (graphemes, unk inside/outside the token list) x special configs (extra tokens, duplicates, prefix/suffix) x ignore_special_tokens; oracle: independent leftmost special-token scanner + UTF-8 bytes, round trip. Non-trivial: the text contains a multi-byte character and (a special spelling/look-alike, or a non-empty prefix/suffix list). Distinct = distinct serialised case.";
-    const ESSENTIAL: &'static [&'static str] = &["byte", "char", "special_in_text", "special_adjacent_multibyte", "prefix_suffix", "parsing_off", "char_over_alphabet", "multi_cp_cluster"];
+    const RULE: &'static str = "Unicode text from fragment pools (multi-byte, combining sequences, CRLF, ZWJ emoji, hazards) mixed with the case's own special-token spellings and look-alikes ('<pad', 'pad>', doubled, nested, upper-cased, adjacent to multi-byte characters), one text in 150 repeated to more than 4 KB and one in 1500 to more than 64 KB, x byte tokenizer configs (graphemes, byte/code-point groups, pad_to_multiple_of, aggregation) or char tokenizer configs (graphemes, unk inside/outside the token list) x special configs (extra tokens, duplicates, prefix/suffix) x ignore_special_tokens; oracle: independent leftmost special-token scanner + UTF-8 bytes, round trip. Non-trivial: the text contains a multi-byte character and (a special spelling/look-alike, or a non-empty prefix/suffix list). Distinct = distinct serialised case.";
+    const ESSENTIAL: &'static [&'static str] = &["byte", "char", "special_in_text", "special_adjacent_multibyte", "prefix_suffix", "parsing_off", "char_over_alphabet", "multi_cp_cluster", "longer_than_4096_bytes"];
 
     fn budget(tier: Tier) -> Budget {
         match tier {
@@ -58,11 +61,12 @@ impl Prop for C01 {
                     1 => gen::text(12),
                     1 => gen::text_with(look.clone(), 60),
                 ];
-                (kind, text, any::<bool>()).prop_map(move |(kind, text, ignore_special)| Case {
-                    kind,
-                    special: special.clone(),
-                    text,
-                    ignore_special,
+                // one case in 150 repeats a short text until it is longer than 4 KB (any cluster of the
+                // text then sits at many different offsets), one in 1500 until it is longer than 64 KB
+                let repeat = prop_oneof![1500 => Just(0usize), 10 => 120usize..=600, 1 => 2000usize..=3000];
+                (kind, text, any::<bool>(), repeat).prop_map(move |(kind, text, ignore_special, repeat)| {
+                    let repeat = if text.len() > 120 { 0 } else if repeat > 0 && text.len() < 40 { repeat * 2 } else { repeat };
+                    Case { kind, special: special.clone(), text, ignore_special, repeat }
                 })
             })
             .boxed()
@@ -108,7 +112,10 @@ impl Prop for C01 {
         let suf_s: String = c.special.suffix.concat();
         out.label_if(!pre.is_empty() || !suf.is_empty(), "prefix_suffix");
         out.label_if(c.ignore_special, "parsing_off");
-        let s = c.text.as_str();
+        let long_text = c.text.repeat(c.repeat.max(1));
+        let s = long_text.as_str();
+        out.label_if(s.len() > 4096, "longer_than_4096_bytes");
+        out.label_if(s.len() > 65536, "longer_than_65536_bytes");
         let units = if c.ignore_special {
             if s.is_empty() { vec![] } else { vec![Ok(s)] }
         } else {
